@@ -5,7 +5,7 @@ From Coq Require Import List NArith ZArith Bool Arith Lia.
 From Muscle Require Import Gen.Consts Refl.Base Refl.BaseProofs Refl.Tree Refl.TreeProofs Refl.Matcher Refl.MatcherProofs
      Refl.Traverse Refl.TraverseFold Refl.TraverseSpec Refl.Session Refl.Server Refl.ServerProofs Refl.Mirror Refl.MirrorBase
      Refl.MirrorServer Refl.MirrorNotify Refl.MirrorSem Refl.MirrorSteps Refl.MirrorHandlers Refl.MirrorSubscribe Refl.MirrorFetch
-     Refl.MirrorSubJ Refl.MirrorCmd Refl.MirrorFrame.
+     Refl.MirrorSubJ Refl.MirrorCmd Refl.MirrorFrame Refl.MirrorQuiet.
 Import ListNotations.
 
 Section WorldProofs.
@@ -286,10 +286,18 @@ Qed.
 
 (* ------------------------------------------------------------------ one event *)
 
-(* what may be quiet (cmd_loud_for: everything that changes the tree is announced; the observer's own SUBSCRIBE: asks for
-   its initial values), and the server's BATCH nesting limit *)
-Definition ev_ok (o : sid) (ev : event) : Prop :=
-  match ev with ECmd b c => cmd_loud_for (N.eqb b o) c = true /\ cmd_depth c <= max_batch_nest | _ => True end.
+(* what may be quiet in the state [w]: cmd_loud_for (everything that changes the tree is announced; the observer's own
+   SUBSCRIBE: asks for its initial values) -- or anything at all, from a session other than the observer below whose session
+   node none of the observer's subscription paths reaches (quiet_frame); and the server's BATCH nesting limit *)
+Definition ev_ok (o : sid) (w : world) (ev : event) : Prop :=
+  match ev with
+  | ECmd b c =>
+    (cmd_loud_for (N.eqb b o) c = true \/
+     (b <> o /\ forall so sb, get_session (w_srv w) o = Some so -> get_session (w_srv w) b = Some sb ->
+                              hidden_data (all_entries (s_subs so)) (session_dir sb)))
+    /\ cmd_depth c <= max_batch_nest
+  | _ => True
+  end.
 
 (* what the observer itself may send in the state [w]: commands without unsubscribe whose SUBSCRIBE: field lists are well
    formed and whose explicit GETDATA keys are subscriptions it holds at that moment; or an unsubscribe as a Message of its own *)
@@ -424,7 +432,7 @@ Lemma snd_client_unsub : forall m subs, snd (client_cmd m (CUnsubscribe subs)) =
 Proof. reflexivity. Qed.
 
 Lemma world_cmd : forall B w b c0 o, small (B + cmd_budget c0) -> winv B w -> wJ w o ->
-  ev_ok o (ECmd b c0) -> ev_clean o w (ECmd b c0) ->
+  ev_ok o w (ECmd b c0) -> ev_clean o w (ECmd b c0) ->
   winv (B + cmd_budget c0) (world_step fx w (ECmd b c0)) /\ wJ (world_step fx w (ECmd b c0)) o.
 Proof.
   intros B w b c0 o HB [I Hq Hhas Hmok] HJ [Hloud Hdepth] Hclean. cbn [ev_clean] in Hclean.
@@ -464,6 +472,8 @@ Proof.
             (exists ss, get_session sv1 o = Some ss) /\ J (c_mirror c) sv1 o).
   { intros Hpl c Hc Hid. destruct (Hhas1 c Hc) as [ss1 [Hss1 _]]. rewrite Hid in Hss1. split; [eauto|].
     apply J_push_all. apply (handle_J fx guard_on overlap_on push_on (c_mirror c) o c0 0 (w_srv w) b B); auto.
+    { destruct Hloud as [Hl|[Hne Hh]]; [now left|right]. split; [auto|].
+      destruct (Hhas c Hc) as [so [Hso _]]. rewrite Hid in Hso. exists so, bs. split; [auto|split; [auto|]]. now apply Hh. }
     intros E. destruct (Hclean E) as [Hs _]. destruct (Hpl E) as [Hp1 Hp2]. split; [auto|split; [auto|]].
     intros ss Hss. split; [|now apply Hp2].
     destruct Hq as [_ Hq2]. apply (Hq2 ss). apply find_session_some in Hss. tauto. }
@@ -509,7 +519,7 @@ Qed.
 (* ------------------------------------------------------------------ histories *)
 
 Lemma world_step_ok : forall B w ev o, small (B + ev_budget ev) -> winv B w -> wJ w o ->
-  wf_event (w_srv w) ev -> ev_ok o ev -> ev_clean o w ev ->
+  wf_event (w_srv w) ev -> ev_ok o w ev -> ev_clean o w ev ->
   winv (B + ev_budget ev) (world_step fx w ev) /\ wJ (world_step fx w ev) o.
 Proof.
   intros B w [s host nm|s|b c] o HB HW HJ Hwf Hok Hcl; cbn [ev_budget] in *; try rewrite Nat.add_0_r in *.
@@ -525,20 +535,20 @@ Fixpoint wf_wrun (w : world) (evs : list event) : Prop :=
   | ev :: r => wf_event (w_srv w) ev /\ wf_wrun (world_step fx w ev) r
   end.
 
-(* the condition on the observer's own commands, read along the run *)
-Fixpoint clean_wrun (o : sid) (w : world) (evs : list event) : Prop :=
+(* the conditions on quiet flags (ev_ok) and on the observer's own commands (ev_clean), read along the run *)
+Fixpoint ok_wrun (o : sid) (w : world) (evs : list event) : Prop :=
   match evs with
   | [] => True
-  | ev :: r => ev_clean o w ev /\ clean_wrun o (world_step fx w ev) r
+  | ev :: r => ev_ok o w ev /\ ev_clean o w ev /\ ok_wrun o (world_step fx w ev) r
   end.
 
 Theorem world_run_ok : forall evs B w o, small (B + run_budget evs) -> winv B w -> wJ w o ->
-  wf_wrun w evs -> Forall (ev_ok o) evs -> clean_wrun o w evs ->
+  wf_wrun w evs -> ok_wrun o w evs ->
   winv (B + run_budget evs) (world_run fx evs w) /\ wJ (world_run fx evs w) o.
 Proof.
-  induction evs as [|ev evs IH]; intros B w o HB HW HJ Hwf Hok Hcl; cbn [world_run fold_left run_budget] in *.
+  induction evs as [|ev evs IH]; intros B w o HB HW HJ Hwf Hok; cbn [world_run fold_left run_budget] in *.
   - rewrite Nat.add_0_r. auto.
-  - destruct Hwf as [Hw1 Hw2]. inversion Hok as [|? ? Hok1 Hok2]; subst. destruct Hcl as [Hcl1 Hcl2].
+  - destruct Hwf as [Hw1 Hw2]. destruct Hok as [Hok1 [Hcl1 Hok2]].
     destruct (world_step_ok B w ev o) as [HW1 HJ1]; auto.
     { eapply small_le; [|exact HB]. lia. }
     rewrite Nat.add_assoc. apply IH; auto. now rewrite <- Nat.add_assoc.
@@ -559,13 +569,13 @@ Qed.
    client of o holds, at every path that is not in its own subtree, exactly what its subscriptions (paths and filters)
    select of the true tree -- the node's current payload if some subscription accepts it, nothing otherwise. *)
 Theorem mirror_converges_partial : forall evs o,
-  wf_wrun empty_world evs -> Forall (ev_ok o) evs -> clean_wrun o empty_world evs -> small (run_budget evs) ->
+  wf_wrun empty_world evs -> ok_wrun o empty_world evs -> small (run_budget evs) ->
   forall c ss, In c (w_clients (world_run fx evs empty_world)) -> c_id c = o ->
   get_session (w_srv (world_run fx evs empty_world)) o = Some ss ->
   forall q, own_node ss q = false ->
   mirror_get (c_mirror c) q = expected (sv_tree (w_srv (world_run fx evs empty_world))) ss q.
 Proof.
-  intros evs o Hwf Hok Hcl Hsm c ss Hc Hid Hss q Hown.
+  intros evs o Hwf Hok Hsm c ss Hc Hid Hss q Hown.
   destruct (world_run_ok evs 0 empty_world o Hsm empty_winv) as [HW HJ]; auto.
   { intros c0 []. }
   cbn [Nat.add] in HW. destruct HW as [_ Hq _ _].
